@@ -98,8 +98,10 @@ def _mk_plugins(log, kind='function'):
     return _Plugs(log, kind, 4)
 
 
-def _choose(c, name, n):
+def _choose(c, name, n, pin=None):
     v = c.int(name, 0, n - 1)
+    if pin is not None:                  # job splitting only: this job covers the histories that start with this choice
+        c.assume(v == pin)
     if getattr(c, 'concrete', False):
         return v
     return eng().concretize(v.t, limit=64)
@@ -169,15 +171,16 @@ def r_onestep(inputs, params, obligation):
 
 
 # ------------------------------------------------------------------------------ (ii)+(iii) histories
-def h_history_plugins(c, pkg, length, nscopes, kind='function'):
+def h_history_plugins(c, pkg, length, nscopes, kind='function', first=None):
     F, P = pkg.functions, pkg.parsing
     log = []
     plugs = _mk_plugins(log, kind)[:3]
     ref = {s: [] for s in SCOPES[:nscopes]}
     hist = []
     for k in range(length):
-        s = SCOPES[_choose(c, f'scope{k}', nscopes)] if nscopes > 1 else SCOPES[0]
-        op = _choose(c, f'op{k}', 3)
+        pin = first if (first is not None and k == 0) else (None, None)
+        s = SCOPES[_choose(c, f'scope{k}', nscopes, pin[0])] if nscopes > 1 else SCOPES[0]
+        op = _choose(c, f'op{k}', 3, pin[1])
         if op == 2:
             F.reset_plugins(s)
             ref[s] = []
@@ -276,7 +279,7 @@ class ConB:
         return None
 
 
-def h_history_contracts(c, pkg, length):
+def h_history_contracts(c, pkg, length, first=None):
     """contracts, contract interfaces and aliases: each position one of 12 operations"""
     F, P = pkg.functions, pkg.parsing
     log = []
@@ -287,7 +290,7 @@ def h_history_contracts(c, pkg, length):
     base_ifaces = set(F._contract_interfaces)
     hist = []
     for k in range(length):
-        op = _choose(c, f'op{k}', 12)
+        op = _choose(c, f'op{k}', 12, first if k == 0 else None)
         if op == 10:
             r = outcome_of(F.add_contract, b'A', conA2)
             if r[0] == 'ok':
@@ -487,8 +490,18 @@ def _p_hist(tier):
     if tier == 'quick':
         return [{'length': n, 'nscopes': 2} for n in (1, 2, 3)] + [{'length': 4, 'nscopes': 1}] + \
             [{'length': n, 'nscopes': 1, 'kind': k} for n in (2, 3) for k in ('method', 'eq_object')]
-    return [{'length': n, 'nscopes': 2} for n in (1, 2, 3, 4, 5)] + [{'length': 6, 'nscopes': 1}] + \
+    # (the longest histories are split by their first operation, one job each)
+    return [{'length': n, 'nscopes': 2} for n in (1, 2, 3, 4)] + \
+        [{'length': 5, 'nscopes': 2, 'first': [sc, op]} for sc in (0, 1) for op in (0, 1, 2)] + \
+        [{'length': 6, 'nscopes': 1, 'first': [None, op]} for op in (0, 1, 2)] + \
         [{'length': n, 'nscopes': ns, 'kind': k} for n, ns in ((2, 2), (3, 2), (4, 1), (5, 1)) for k in ('method', 'eq_object')]
+
+
+def _p_contracts(tier):
+    out = [{'length': n} for n in (1, 2, 3)] + [{'length': 4, 'first': f} for f in range(12)]
+    if tier != 'quick':
+        out += [{'length': 5, 'first': f} for f in range(12)]
+    return out
 
 
 def _p_indep(tier):
@@ -509,7 +522,7 @@ HARNESSES = [
     HarnessSpec('onestep', h_onestep, [{'n_pre': n} for n in range(5)] + [{'n_pre': n, 'kind': k} for n in (1, 2, 3) for k in ('method', 'eq_object')],
                 witness_replay=True, witness_every=3, replay=r_onestep, fresh_pkg=True, signature=_sig),
     HarnessSpec('history_plugins', h_history_plugins, _p_hist, witness_replay=True, witness_every=40, replay=r_history_plugins, fresh_pkg=True, signature=_sig),
-    HarnessSpec('history_contracts', h_history_contracts, lambda t: [{'length': n} for n in ((1, 2, 3, 4) if t == 'quick' else (1, 2, 3, 4, 5))],
+    HarnessSpec('history_contracts', h_history_contracts, _p_contracts,
                 fresh_pkg=True, signature=_sig, replay=r_history_contracts, witness_replay=True, witness_every=200),
     HarnessSpec('independence', h_independence, _p_indep, replay=r_independence, fresh_pkg=True, signature=_sig),
     HarnessSpec('caller_dicts', h_caller_dicts, fresh_pkg=True),
